@@ -243,6 +243,8 @@ def lean_build_and_audit(ctx: Ctx, modules: List[str], extracted: Optional[List[
             ctx.driver = Driver(exe) if drv_ok else None
         else:
             ctx.driver = Driver(exe)
+        if ctx.driver is not None:
+            ctx.driver = Driver(_private_copy(exe))
         # obligations
         names: List[str] = []
         for mod in modules:
@@ -277,6 +279,19 @@ def lean_build_and_audit(ctx: Ctx, modules: List[str], extracted: Optional[List[
         if hits:
             ctx.tie_broken.append({"kind": "audit", "what": "forbidden token in Lean sources", "hits": hits[:10]})
         ctx.lean_ok = not ctx.tie_broken
+
+
+def _private_copy(exe: Path) -> Path:
+    """this run's own copy of the driver (taken under the Lean lock), so that a concurrent rebuild cannot swap the
+    model under a running check"""
+    import atexit
+    import shutil
+    RUN.mkdir(exist_ok=True)
+    dst = RUN / f"hcdriver_{os.getpid()}"
+    shutil.copy2(exe, dst)
+    owner = os.getpid()
+    atexit.register(lambda: dst.unlink(missing_ok=True) if os.getpid() == owner else None)
+    return dst
 
 
 def _enclosing_theorem(errs, mod) -> Optional[str]:
